@@ -7,6 +7,7 @@ import c01
 PROP = "C05"
 LEAN_MODULES = ["DrxProps.C05", "DrxProps.C05Real"]
 FAMILIES = ["dir"]
+MODEL_REPRODUCES_KNOWN_FINDINGS = True      # the model is of the code that exists: see core.main, stage K
 RULE = ("synthesised movies: cast slots (empty or a member with its CASt record and 0..n linked resources), resource ids = shuffled "
         "file order, key-table entries shuffled with ignored noise entries, Lctx/Lscr with base and continuation scripts, optional "
         "Lnam/VWLB/VWSC/Fmap chunks present or absent, both byte orders, optional executable prefix. Two modes: 'stub' replaces every "
